@@ -166,6 +166,115 @@ def _work(args):
 
 
 # ---------------------------------------------------------------------------------------------
+# crash- and hang-proof worker pool: long-lived workers (no fork per execution), one pipe each; a worker that dies
+# (a C extension calling exit(), a segfault) or overruns the hard wall limit is recorded for the item in flight and
+# replaced, so the run always terminates and never loses an item.
+
+def _worker_main(conn, name, scratch_root, budget):
+    _init_worker(scratch_root)
+    mod = load_check(name)
+    while True:
+        try:
+            msg = conn.recv()
+        except EOFError:
+            break
+        if msg is None:
+            break
+        idx, item = msg
+        res = run_item_guarded(mod, item, budget)
+        try:
+            conn.send((idx, res))
+        except Exception as e:
+            conn.send((idx, {'status': 'harness_error', 'error': 'unpicklable result: %r' % e, 'states': 0, 'transitions': 0,
+                             'validated': 0, 'nontrivial': False, 'outcome': None}))
+    os._exit(0)
+
+
+def _dead_result(kind, detail):
+    return {'status': kind, 'detail': detail, 'states': 0, 'transitions': 0, 'validated': 0, 'nontrivial': False, 'outcome': None}
+
+
+def run_pool(name, items, results, budget, scratch_root, jobs, maxtasks=None):
+    import collections
+    from multiprocessing.connection import wait
+    ctx = multiprocessing.get_context('fork')
+    hard = 3 * budget + 60
+
+    def spawn():
+        a, b = ctx.Pipe()
+        p = ctx.Process(target=_worker_main, args=(b, name, scratch_root, budget), daemon=True)
+        p.start()
+        b.close()
+        return {'proc': p, 'conn': a, 'idx': None, 't0': None, 'done': 0}
+
+    pending = collections.deque(range(len(items)))
+    workers = [spawn() for _ in range(jobs)]
+    remaining = len(items)
+    try:
+        while remaining:
+            for w in workers:
+                if w['idx'] is None and pending:
+                    i = pending.popleft()
+                    w['idx'], w['t0'] = i, time.time()
+                    w['conn'].send((i, items[i]))
+            busy = [w for w in workers if w['idx'] is not None]
+            ready = wait([w['conn'] for w in busy], timeout=2.0)
+            now = time.time()
+            for k, w in enumerate(workers):
+                if w['idx'] is None:
+                    continue
+                replace = False
+                if w['conn'] in ready:
+                    try:
+                        idx, res = w['conn'].recv()
+                        results[idx] = res
+                        w['done'] += 1
+                        if maxtasks and w['done'] >= maxtasks:
+                            replace = True
+                    except (EOFError, ConnectionResetError, OSError):
+                        w['proc'].join(5)
+                        results[w['idx']] = _dead_result('crash', 'worker process died (exit code %s) while running this item'
+                                                         % w['proc'].exitcode)
+                        replace = True
+                    remaining -= 1
+                    w['idx'] = None
+                elif now - w['t0'] > hard:
+                    results[w['idx']] = _dead_result('timeout', 'hard wall limit %ds: worker killed' % hard)
+                    remaining -= 1
+                    w['idx'] = None
+                    replace = True
+                if replace:
+                    try:
+                        w['proc'].kill()
+                    except Exception:
+                        pass
+                    w['proc'].join(5)
+                    w['conn'].close()
+                    workers[k] = spawn()
+    finally:
+        for w in workers:
+            try:
+                w['conn'].send(None)
+            except Exception:
+                pass
+        for w in workers:
+            w['proc'].join(2)
+            if w['proc'].is_alive():
+                w['proc'].kill()
+
+
+def run_isolated(name, item, budget):
+    """One item in a forked child (used by --replay so that a library call that kills the process is still a verdict)."""
+    results = [None]
+    scratch_root = tempfile.mkdtemp(prefix='vt_replay_')
+    try:
+        run_pool(name, [item], results, budget, scratch_root, 1)
+    finally:
+        shutil.rmtree(scratch_root, ignore_errors=True)
+    return results[0]
+
+
+# ---------------------------------------------------------------------------------------------
 # known findings
 
 def load_known():
@@ -209,19 +318,14 @@ def run_check(name, tier, seed, jobs=None, max_replays=12, limit=None, triage=Fa
     results = [None] * len(items)
     jobs = jobs or int(os.environ.get('VERIF_JOBS', '0')) or min(16, os.cpu_count() or 1)
     try:
-        if jobs == 1 or len(items) <= 1:
+        if jobs == 1 and os.environ.get('VERIF_INPROCESS'):
             _init_worker(scratch_root)
             for i, it in enumerate(items):
                 results[i] = _work((name, i, it, budget))[1]
             os.chdir(ROOT)
         else:
-            ctx = multiprocessing.get_context('fork')
-            chunk = max(1, min(16, len(items) // (jobs * 8) or 1))
-            with ctx.Pool(jobs, initializer=_init_worker, initargs=(scratch_root,),
-                          maxtasksperchild=getattr(mod, 'MAXTASKS', None)) as pool:
-                for idx, res in pool.imap_unordered(_work, ((name, i, it, budget) for i, it in enumerate(items)),
-                                                    chunksize=chunk):
-                    results[idx] = res
+            run_pool(name, items, results, budget, scratch_root, min(jobs, max(1, len(items))),
+                     getattr(mod, 'MAXTASKS', None))
     finally:
         shutil.rmtree(scratch_root, ignore_errors=True)
 
@@ -232,7 +336,13 @@ def run_check(name, tier, seed, jobs=None, max_replays=12, limit=None, triage=Fa
         fin_viols = extra.pop('violations', [])
 
     known = load_known()
-    counts = {'ok': 0, 'violation': 0, 'skip': 0, 'timeout': 0, 'harness_error': 0}
+    counts = {'ok': 0, 'violation': 0, 'skip': 0, 'timeout': 0, 'harness_error': 0, 'crash': 0}
+    crash_is_violation = bool(getattr(mod, 'CRASH_IS_VIOLATION', False))
+    for it, res in zip(items, results):
+        if res['status'] == 'crash' and crash_is_violation:
+            res['status'] = 'violation'
+            sigf = getattr(mod, 'crash_sig', None)
+            res['viols'] = [viol('process_died', sigf(it) if sigf else {}, detail=res.get('detail'))]
     states = transitions = validated = 0
     outcomes = set()
     nontrivial = set()
@@ -315,7 +425,7 @@ def run_check(name, tier, seed, jobs=None, max_replays=12, limit=None, triage=Fa
         'evaluations': len(items), 'distinct_nontrivial': len(nontrivial),
         'rule': mod.RULE, 'exhaustive': bool(getattr(mod, 'EXHAUSTIVE', True)) and counts['timeout'] == 0,
         'items_ok': counts['ok'], 'items_violating': counts['violation'], 'items_skipped': counts['skip'],
-        'items_timeout': counts['timeout'], 'skip_reasons': skips,
+        'items_timeout': counts['timeout'], 'items_worker_died': counts.get('crash', 0), 'skip_reasons': skips,
         'distinct_outcomes': len(outcomes),
         'known_findings_hit': {k: e[1] for k, e in listed.items()},
         'unlisted_violation_signatures': len(seen_sig),
@@ -333,9 +443,10 @@ def run_check(name, tier, seed, jobs=None, max_replays=12, limit=None, triage=Fa
     for fid, (e, n, it, v) in sorted(listed.items()):
         print('KNOWN-FINDING: property=%s %s [%s; %d occurrence(s) this run]' % (prop, e['what'], fid, n))
     print('%s tier=%s seed=%d items=%d ok=%d viol=%d skip=%d timeout=%d states=%d transitions=%d validated=%d '
-          'nontrivial=%d outcomes=%d wall=%.1fs' % (prop, tier, seed, len(items), counts['ok'], counts['violation'],
+          'nontrivial=%d outcomes=%d wall=%.1fs%s' % (prop, tier, seed, len(items), counts['ok'], counts['violation'],
                                                    counts['skip'], counts['timeout'], states, transitions, validated,
-                                                   len(nontrivial), len(outcomes), wall))
+                                                   len(nontrivial), len(outcomes), wall,
+                                                   (' worker_died=%d' % counts['crash']) if counts.get('crash') else ''))
     if harness_errors:
         for it, err in harness_errors[:5]:
             print('HARNESS-ERROR item=%s\n%s' % (canon(it)[:400], err), file=sys.stderr)
@@ -370,13 +481,11 @@ def confirm_replay(name, path):
 def replay(name, path, print_line=True):
     mod = load_check(name)
     rec = json.loads(Path(path).read_text())
-    scratch_root = tempfile.mkdtemp(prefix='vt_replay_')
-    try:
-        _init_worker(scratch_root)
-        res = run_item_guarded(mod, rec['item'], max(60, 5 * budget_of(mod, rec.get('tier', 'quick'))))
-    finally:
-        os.chdir(ROOT)
-        shutil.rmtree(scratch_root, ignore_errors=True)
+    res = run_isolated(name, rec['item'], max(60, 5 * budget_of(mod, rec.get('tier', 'quick'))))
+    if res['status'] == 'crash' and getattr(mod, 'CRASH_IS_VIOLATION', False):
+        res['status'] = 'violation'
+        sigf = getattr(mod, 'crash_sig', None)
+        res['viols'] = [viol('process_died', sigf(rec['item']) if sigf else {}, detail=res.get('detail'))]
     print(json.dumps({k: v for k, v in res.items() if k != 'viols'}, default=str)[:2000])
     if res['status'] == 'violation':
         want = canon(rec['violation']['sig'])
@@ -386,7 +495,7 @@ def replay(name, path, print_line=True):
         if print_line:
             print('VIOLATION property=%s replay=%s' % (mod.PROP, path))
         return 1
-    if res['status'] == 'harness_error':
-        print(res.get('error'), file=sys.stderr)
+    if res['status'] in ('harness_error', 'crash'):
+        print(res.get('error') or res.get('detail'), file=sys.stderr)
         return 2
     return 0
